@@ -1,9 +1,14 @@
 #!/bin/bash
 # Sensitivity suite: every patch in /verif/mutants (and /verif/seeded/*/patch.diff) against the check of its property.
 # Writes /verif/mutants/RESULTS.md.  usage: tools/run_mutants.sh [tier]
+# ONLY="C03 C12" tools/run_mutants.sh quick   -- re-runs the changes of those properties only; the other rows are kept
 TIER=${1:-quick}
 cd /verif
 OUT=mutants/RESULTS.md
+ONLY=${ONLY:-}
+keep_row() {   # prints the stored row of a change whose property is not re-run; fails if there is none
+  grep -F "| $1 |" $OUT | head -1 | grep . 
+}
 echo "# Sensitivity suite results (tier: $TIER; tree $(git -C /repo log --format=%h -1))" > $OUT.tmp
 echo >> $OUT.tmp
 echo "| change | property | result | first violation key |" >> $OUT.tmp
@@ -17,6 +22,7 @@ run_one() {
 }
 for p in mutants/*.patch mutants/selftest/*.patch; do
   prop=$(basename $p | cut -c1-3 | tr a-z A-Z)
+  if [ -n "$ONLY" ] && ! echo " $ONLY " | grep -q " $prop "; then keep_row "$(basename $(dirname $p))/$(basename $p)" >> $OUT.tmp && continue; fi
   run_one $p $prop >> $OUT.tmp
 done
 for d in seeded/*/; do
@@ -24,6 +30,7 @@ for d in seeded/*/; do
   grep -q obsolete_after "$d/meta.json" && continue
   grep -q '"out_of_scope"' "$d/meta.json" && continue
   prop=$(/venv/bin/python -c "import json,sys; print(json.load(open('$d/meta.json'))['property'])")
+  if [ -n "$ONLY" ] && ! echo " $ONLY " | grep -q " $prop "; then keep_row "$(basename $d)/patch.diff" >> $OUT.tmp && continue; fi
   line=$(run_one $d/patch.diff $prop)
   echo "$line" >> $OUT.tmp
   /venv/bin/python - "$d/meta.json" "$line" "$TIER" <<'PY'
